@@ -100,7 +100,7 @@ def finding_key(case, out):
 def stretch(case, n):
     """Deepened nesting beyond what TLC enumerates: the same operator (Deepen) applied n times at the same type id."""
     f, off, d0 = case["frame"], case["at"], case["depth"]
-    g = f[:off] + [0, 32] * (n - d0) + f[off:]
+    g = f[:off] + list(case["pat"]) * (n - d0) + f[off:]
     ln = len(g) - 9
     g[5:9] = [(ln >> 24) & 255, (ln >> 16) & 255, (ln >> 8) & 255, ln & 255]
     c = dict(case)
@@ -145,8 +145,12 @@ def run(tier):
     deep1 = [c for c in cases if c["kind"] == "deep" and c["depth"] == 1]
     for c in deep1[:: (1 if tier == "thorough" else 6)]:
         cases.append(stretch(c, 5000))
-    for c in deep1[:2] + [x for x in deep1 if x["d"]["k"] == "prepared"][:1]:
-        cases.append(stretch(c, 200000))
+    seen_pat = set()
+    for c in deep1:            # one 200 000-level instance per composite kind (and one in prepared metadata)
+        key = (tuple(c["pat"]), c["d"]["k"] == "prepared")
+        if key not in seen_pat and (not key[1] or tuple(c["pat"]) == (0, 32)):
+            seen_pat.add(key)
+            cases.append(stretch(c, 200000))
     rng = random.Random(seed())
     cases += random_cases(rng, 4000 if tier == "quick" else 40000)
     ins = []
